@@ -82,11 +82,11 @@ def check(prop, tier, spec):
             if r is None:
                 skipped += 1
                 continue
-            if r["crash"] in ("harness", "hang"):
-                skipped += 1
+            if r["crash"] == "harness" or (r["crash"] == "hang" and (v is None or v["ok"])):
+                skipped += 1      # not driven to its end; the recorded prefix (if any) was explained
                 continue
             bad = None
-            if r["crash"]:
+            if r["crash"] and r["crash"] != "hang":
                 bad = "process %s while running the script" % ("reported a data race" if r["crash"] == "race" else "crashed")
             elif v is not None and not v["ok"]:
                 if known_ok.get(s["id"]):
@@ -120,6 +120,7 @@ def check(prop, tier, spec):
                         samples.append({"script": s["id"], "steps": [
                             {k: v_ for k, v_ in st.items() if v_ not in ("", [], 0)} for st in s["steps"]][:14],
                             "events": [[e["t"], e["e"], e["c"] or e["p"], e["n"]] for e in list(events_of(r))[:12]]})
+        selftest = binding_selftest(work, scripts, res, verdicts)
         pure_res = None
         if spec.get("pure"):
             from . import pure as P
@@ -141,6 +142,7 @@ def check(prop, tier, spec):
             "trace_validation": {"tlc_runs": tstats["runs"], "states": tstats["distinct"]},
             "scripts_not_driven_to_end": skipped,
             "known_findings_matched": len(known_lines),
+            "binding_selftest": selftest,
             "exhaustive": False,
         }
         if pure_res:
@@ -169,6 +171,36 @@ def check(prop, tier, spec):
         return 1 if violations else 0
     finally:
         work.close()
+
+
+def binding_selftest(work, scripts, res, verdicts):
+    """Demonstrate that the trace specification is bound to the recorded data: corrupting one logged field
+    and dropping one logged event of an accepted trace must both make TLC reject it."""
+    import copy
+    for s in scripts:
+        v = verdicts.get(s["id"])
+        r = res.get(s["id"])
+        if not v or not v["ok"] or not r or r["crash"] or r["end"] is None:
+            continue
+        ws = [(oi, ei) for oi, o in enumerate(r["obs"]) for ei, e in enumerate(o["ev"]) if e["e"] == "w" and len(e["b"]) >= 19]
+        if len(ws) < 2:
+            continue
+        out = {}
+        for name in ("corrupted_field", "dropped_event"):
+            r2 = copy.deepcopy(r)
+            oi, ei = ws[-1]
+            if name == "corrupted_field":
+                r2["obs"][oi]["ev"][ei]["b"][-1] ^= 1
+            else:
+                del r2["obs"][oi]["ev"][ei]
+            s2 = dict(s, id=s["id"] + "#" + name)
+            vv, _ = B.validate(work, [s2], {s2["id"]: r2})
+            out[name] = "rejected" if not vv[s2["id"]]["ok"] else "ACCEPTED"
+        if "ACCEPTED" in out.values():
+            raise C.Inconclusive("binding self-test failed: a corrupted trace of %s was accepted: %s" % (s["id"], out))
+        out["trace"] = s["id"]
+        return out
+    return {"note": "no suitable trace for the self-test in this run"}
 
 
 def replay(prop, path, spec, repeats=5):
